@@ -17,7 +17,7 @@ def main(argv=None):
     ap.add_argument("--only", default=None, help="comma separated sub-check names (debugging)")
     ap.add_argument("--nproc", type=int, default=None)
     a = ap.parse_args(argv)
-    tier = os.environ.get("VERIF_TIER") or a.tier or "quick"
+    tier = a.tier or os.environ.get("VERIF_TIER") or "quick"  # the command line (MANIFEST commands name their tier) wins over the environment
     if tier not in ("quick", "thorough"):
         tier = "quick"
     seed = int(os.environ.get("VERIF_SEED", "0") or 0)
@@ -75,4 +75,11 @@ def main(argv=None):
 
 
 if __name__ == "__main__":
-    sys.exit(main())
+    try:
+        sys.exit(main())
+    except Exception as ex:  # noqa: BLE001 - a failure of the machinery itself: exit 2, never a VIOLATION
+        from . import core as _core
+        if isinstance(ex, _core.HarnessError):
+            print("HARNESS-ERROR: %s" % ex)
+            sys.exit(2)
+        raise
